@@ -1,7 +1,8 @@
 """C36 concurrent sessions on one database get distinct identifiers.
 
 Real code: androguard.session.Session(db_url='sqlite:///<file>') executed in k real processes (forked from a zygote that imported
-androguard once) under the rendez-vous scheduler vf.monitor.sched.  Pause points: R = dataset Table.__len__ on the session table
+androguard once; a pool of 24 persistent workers, each run borrows k of them; a subset of the schedules is repeated with one-shot
+children and must agree) under the rendez-vous scheduler vf.monitor.sched.  Pause points: R = dataset Table.__len__ on the session table
 (the count that becomes session_id), I = Table.insert of the session row.  ALL interleavings of the per-process sequences R;I are
 enumerated by stateless depth-first replay (6 for k=2, 90 for k=3), each on (a) a fresh database file and (b) a database on which
 n>=1 sessions were created before (by the same real code, serially).
@@ -19,7 +20,9 @@ Domain decisions
   * Watchdog timeouts (a child silent for 60 s) are inconclusive, never violations.
   * Mechanism = <symptom> x <interleaving class of the failing process>:
       symptom: insert-fails-duplicate-id (IntegrityError/UNIQUE on session.id), duplicate-id-returned, id-reuses-existing-row,
-               table-creation-race ("table session already exists"), database-locked, constructor-raises-other, row-count-mismatch
+               table-creation-race ("table session already exists"), database-locked-at-first-connect ("database is locked" before
+               the count was read: the WAL switch of a new file in dataset's on-connect hook; only reachable unscheduled),
+               database-locked-after-count, constructor-raises-other, row-count-mismatch
       class:   read-read-before-insert = some other process read its count inside this process's read..insert window (for two
                processes: both reads precede the first insert);  serial-schedule = no such overlap (then the name is
                serial-schedule-fails-<symptom>: a failure the missing transaction cannot explain).
@@ -63,13 +66,17 @@ def copy_db(src, dst):
         d.close()
 
 
-def symptom_of(exc):
+def symptom_of(exc, log=None):
     if "UNIQUE constraint failed" in exc or exc.startswith("IntegrityError"):
         return "insert-fails-duplicate-id"
     if "already exists" in exc:
         return "table-creation-race"
     if "database is locked" in exc or "database table is locked" in exc:
-        return "database-locked"
+        # where: before the count was read (= while the first connection was being opened: dataset switches a new file to WAL mode
+        # in its on-connect hook, which needs the file exclusively) or later
+        if log is not None and not any(p == "R" and str(what).startswith("value") for (p, what, _t) in log):
+            return "database-locked-at-first-connect"
+        return "database-locked-after-count"
     return "constructor-raises-other"
 
 
@@ -107,10 +114,12 @@ def judge(k, pre_ids, results, rows_after, windows):
             out.append(("no-result", "a child produced no result", i, []))
             continue
         if r.get("exc"):
-            sym = symptom_of(r["exc"])
+            sym = symptom_of(r["exc"], r.get("log"))
             ov = overlapping(windows, i)
             if sym == "table-creation-race":
                 mech = "table-creation-race-" + ("check-check-before-create" if ov else "serial-schedule")
+            elif sym == "database-locked-at-first-connect":
+                mech = sym + ("-concurrent-open" if ov else "-serial-schedule")
             elif ov:
                 mech = "%s-read-read-before-insert" % sym
             else:
@@ -149,7 +158,8 @@ class Env:
         self.dbs = os.path.join(self.root, "db")
         for d in (self.cwd, self.socks, self.dbs):
             os.mkdir(d)
-        self.zy = sched.ZygotePool(6, self.cwd)
+        self.zy = sched.ZygotePool(2, self.cwd)
+        self.pool = sched.WorkerPool(self.zy, self.socks, 24)
         self.n = 0
         self.templates = {}
 
@@ -167,7 +177,7 @@ class Env:
         os.mkdir(d)
         path = os.path.join(d, "s.db")
         for _ in range(n):
-            r = sched.run_schedule(self.zy, self.socks, 1, "sqlite:///" + path, [], sched.follow(()))
+            r = sched.run_schedule(self.zy, self.socks, 1, "sqlite:///" + path, [], sched.follow(()), pool=self.pool)
             res = r["results"].get(0, {})
             if r["status"] != "ok" or res.get("exc"):
                 raise RuntimeError("could not prepare database: %s %s" % (r["status"], res.get("exc")))
@@ -181,7 +191,10 @@ class Env:
 
     def close(self):
         try:
-            self.zy.close()
+            try:
+                self.pool.close()
+            finally:
+                self.zy.close()
         finally:
             shutil.rmtree(self.root, ignore_errors=True)
 
@@ -230,13 +243,13 @@ def evaluate(ctx, env, cfgname, k, state, r, path, mode):
     return verdicts
 
 
-def exhaustive(ctx, env, k, state, points, mode, max_runs=None, workers=8):
-    cfgname = "%s/k%d/%s" % (mode, k, state)
+def exhaustive(ctx, env, k, state, points, mode, max_runs=None, workers=8, pooled=True):
+    cfgname = "%s/k%d/%s%s" % (mode, k, state, "" if pooled else "/one-shot-children")
     paths = {}
 
     def run_prefix(prefix):
         path = env.new_db(state)
-        r = sched.run_schedule(env.zy, env.socks, k, "sqlite:///" + path, points, sched.follow(prefix))
+        r = sched.run_schedule(env.zy, env.socks, k, "sqlite:///" + path, points, sched.follow(prefix), pool=env.pool if pooled else None)
         paths[id(r)] = path
         r["_path"] = path
         return r
@@ -264,7 +277,7 @@ def sampled(ctx, env, k, state, points, mode, n, workers=8):
 
     def one(j):
         path = env.new_db(state)
-        r = sched.run_schedule(env.zy, env.socks, k, "sqlite:///" + path, points, sched.random_chooser(ctx.rng("c36-sampled", cfgname, j)))
+        r = sched.run_schedule(env.zy, env.socks, k, "sqlite:///" + path, points, sched.random_chooser(ctx.rng("c36-sampled", cfgname, j)), pool=env.pool)
         r["_path"] = path
         return r
     with ThreadPoolExecutor(max_workers=workers) as ex:
@@ -281,10 +294,11 @@ def sampled(ctx, env, k, state, points, mode, n, workers=8):
     ctx.count("distinct_interleavings", len(seen))
 
 
-def stress(ctx, env, nproc, nrounds, states):
+def stress(ctx, env, nproc, nrounds, states, pooled=True):
     plan = [states[r % len(states)] for r in range(nrounds)]
     paths = [env.new_db(s) for s in plan]
-    rounds = sched.run_unscheduled(env.zy, env.socks, nproc, ["sqlite:///" + p for p in paths], ["R", "I"], "%s/c36-stress" % ctx.seed, 2.0)
+    rounds = sched.run_unscheduled(env.zy, env.socks, nproc, ["sqlite:///" + p for p in paths], ["R", "I"], "%s/c36-stress" % ctx.seed, 2.0,
+                                   pool=env.pool if pooled else None)
     for rd in rounds:
         state = plan[rd["round"]]
         rd["schedule"] = ""
@@ -293,6 +307,15 @@ def stress(ctx, env, nproc, nrounds, states):
         evaluate(ctx, env, "stress/k%d/%s" % (nproc, state), nproc, state, rd, paths[rd["round"]], "stress")
     if len(rounds) < nrounds:
         ctx.inconclusive("stress run stopped after %d of %d rounds" % (len(rounds), nrounds))
+
+
+def outcome_map(results):
+    out = {}
+    for r in results:
+        if r["status"] != "ok":
+            continue
+        out[r["schedule"]] = sorted((int(i), v.get("session_id"), symptom_of(v["exc"]) if v.get("exc") else None) for i, v in r["results"].items())
+    return out
 
 
 def all_complete_flag(ctx):
@@ -304,7 +327,8 @@ def run(ctx):
                 "(mode, k, database state, schedule string); every R/I interleaving for k=2 (6) and k=3 (90) on a fresh and on a prepared database")
     ctx.assumptions = [
         "operations between pause points are atomic in the replay (one process runs at a time); pause points are places where the OS may pre-empt",
-        "children are forked from a zygote that imported androguard.session and hold no database connection at fork time",
+        "processes are forked from a zygote that imported androguard.session and hold no database connection at fork time; pool workers "
+        "serve one constructor call per run and close what it opened before reporting (cross-checked against one-shot children)",
         "SQLite file databases in WAL mode as dataset.connect() configures them; 5 s default busy timeout",
     ]
     env = None
@@ -320,10 +344,12 @@ def run(ctx):
         ctx.extra["session_module"] = env.zy.info.get("session_file")
         states = ["fresh", "prepared1"] + ([] if ctx.quick else ["prepared3"])
         all_complete = True
+        pooled_results = {}
         for k in (2, 3):
             for state in states:
-                cap = 300 if ctx.quick else 1500
+                cap = 150 if ctx.quick else 1500
                 n, complete, results = exhaustive(ctx, env, k, state, ["R", "I"], "RI", max_runs=cap)
+                pooled_results[(k, state)] = results
                 all_complete &= complete
                 plain = all(len(r["trace"]) == 2 * k for r in results if r["status"] == "ok")
                 if plain:
@@ -338,16 +364,29 @@ def run(ctx):
                     if not complete and n < EXPECTED[k]:
                         ctx.inconclusive("only %d interleavings explored for k=%d on %s" % (n, k, state))
         ctx.exhaustive = bool(all_complete)
+        # cross-check of the machinery: the same schedules with one-shot children (fork per constructor, process ends after the
+        # report) must give the same outcome as the pooled workers
+        cross = [(2, "fresh"), (2, "prepared1")] + ([] if ctx.quick else [(3, "fresh")])
+        for (k, state) in cross:
+            _n, _c, res2 = exhaustive(ctx, env, k, state, ["R", "I"], "RI", max_runs=150, pooled=False)
+            a, b = outcome_map(pooled_results[(k, state)]), outcome_map(res2)
+            common = set(a) & set(b)
+            ctx.count("cross_checked_schedules", len(common))
+            diff = sorted(s_ for s_ in common if a[s_] != b[s_])
+            if diff or (all_complete and _c and set(a) != set(b)):
+                ctx.inconclusive("pooled workers and one-shot children disagree on k=%d %s: %r" % (k, state, [(d, a[d], b[d]) for d in diff[:3]]))
         # extended points (S, C): the lazy CREATE TABLE inside the first insert on an empty file is part of "created successfully"
-        _n, ext_complete, _r = exhaustive(ctx, env, 2, "fresh", ["R", "S", "C", "I"], "RSCI", max_runs=600)
+        _n, ext_complete, _r = exhaustive(ctx, env, 2, "fresh", ["R", "S", "C", "I"], "RSCI", max_runs=150 if ctx.quick else 600)
         ctx.extra["exhaustive_scope"] = ("exhaustive=true refers to the R/I interleavings for k=2,3 on every database state; "
                                          "extended R/S/C/I enumeration for k=2 on the fresh database complete: %s" % ext_complete)
         if not ctx.quick:
             exhaustive(ctx, env, 2, "prepared1", ["R", "S", "C", "I"], "RSCI", max_runs=600)
             sampled(ctx, env, 3, "fresh", ["R", "S", "C", "I"], "RSCI", 300)
             sampled(ctx, env, 3, "prepared1", ["R", "S", "C", "I"], "RSCI", 60)
-            stress(ctx, env, 16, 50, ["fresh", "prepared1", "prepared3"])
-        ctx.extra["children_forked"] = env.zy.spawned
+            stress(ctx, env, 16, 40, ["fresh", "prepared1", "prepared3"])
+            stress(ctx, env, 16, 10, ["fresh", "prepared1"], pooled=False)
+        ctx.extra["processes_forked"] = env.zy.spawned
+        ctx.extra["pool_runs"] = env.pool.runs
         for cfg, v in sorted(ctx.extra.get("schedules", {}).items()):
             ctx.sample({"config": cfg, "passing": v["passing"], "failing": v["failing_count"], "by_mechanism": v["failing_by_mechanism"], "failing_examples": dict(list(sorted(v["failing"].items()))[:3])})
     finally:
@@ -356,6 +395,7 @@ def run(ctx):
     ctx.require_counter("hook_R_count_reads", 100)
     ctx.require_counter("hook_I_inserts", 100)
     ctx.require_counter("distinct_interleavings", 2 * (6 + 90))
+    ctx.require_counter("cross_checked_schedules", 12)
     if not all_complete_flag(ctx):
         ctx.extra["note"] = "exploration truncated at the cap: not exhaustive"
     ctx.min_distinct = 150
